@@ -63,9 +63,16 @@ class LayerMonitor:
         Bv = {t: np.asarray(b) for t, b in layer.bias.items()}
         target = tuple(layer.target_keys)
         cfg = dict(D=D, in_types={str(t): list(v.shape) for t, v in X.items()}, target=str(target), bank=sorted(str(t) for t in bank), use_bias=layer.use_bias, padding=layer.padding, stride=layer.stride, lhs=layer.lhs_dilation, rhs=layer.rhs_dilation, is_torus=list(x.is_torus))
+        # every (input type, target type) pair whose filter type is in the bank belongs to the defining sum: the layer
+        # must own a weight block for it
+        for s_ in X:
+            for t_, _c in target:
+                if (s_[0] + t_[0], (s_[1] + t_[1]) % 2) in bank and (s_ not in W or tuple(t_) not in W[s_]):
+                    self.viol.append(viol("layer-missing-contribution", f"ConvContract has no weight block for {s_} -> {tuple(t_)} although the bank holds the filter type {(s_[0] + t_[0], (s_[1] + t_[1]) % 2)}: that term of the defining sum is silently absent; {cfg}", **cfg))
+                    return
         try:
             want = rlayer.layer(X, W, Bv, bank, target, layer.use_bias, D, tuple(x.is_torus), layer.stride, layer.padding, layer.lhs_dilation, layer.rhs_dilation)
-        except (ValueError, KeyError) as e:
+        except ValueError:
             return
         self.last_contrib = max([sum(1 for s in X if (s[0] + t[0], (s[1] + t[1]) % 2) in bank) for t in want] or [0])
         got = probes.blocks(out)
